@@ -651,7 +651,10 @@ func (x *Engine) frameObligations(fr *Frame, fs *FuncSpec, ret *State, env map[s
 			}
 		}
 		ev := &Eval{x: x, st: fr.entry, old: fr.entry, env: env, pkg: pkg}
-		v := x.safeEval(ev, m)
+		v, stated := x.trySafeEval(ev, m)
+		if !stated {
+			continue // names something the current code no longer has: the function is degraded (see trySafeEval)
+		}
 		if v.Addr == nil {
 			panic(fmt.Sprintf("%s:%d: contract error: modifies target is not a location\n    in: %s", m.File, m.Line, m.Text))
 		}
